@@ -432,3 +432,33 @@ func (in *Interp) hexDigits(x ival, upper, alt bool) []ival {
 	}
 	return out
 }
+
+// literalPrefix returns the literal text before the first verb of the format.
+func (l *lazyFmt) literalPrefix() string {
+	if l.sprint {
+		return ""
+	}
+	i := strings.IndexByte(l.format, '%')
+	if i < 0 {
+		return l.format
+	}
+	return l.format[:i]
+}
+
+// keyParts recognises a string of the form <literal>%d with one unsigned
+// integer argument without rendering it.
+func (l *lazyFmt) keyParts() (string, ival, bool) {
+	if l.sprint || len(l.args) != 1 {
+		return "", ival{}, false
+	}
+	pre := l.literalPrefix()
+	if l.format != pre+"%d" {
+		return "", ival{}, false
+	}
+	a := unwrapIface(l.args[0])
+	x, ok := a.(ival)
+	if !ok || x.signed {
+		return "", ival{}, false
+	}
+	return pre, x, true
+}
